@@ -156,3 +156,18 @@ package regprocessor
 //@   invariant iter > 0 ==> cumulativeWeights[0] == subnets[0].Weight / totalWeight
 //@   invariant forall i int :: 1 <= i && i < iter ==> cumulativeWeights[i] == cumulativeWeights[i-1] + subnets[i].Weight / totalWeight
 //@   modifies elems(cumulativeWeights)
+
+// C12 "never replaces a phantom that lies in an excluded subnet ... for every registrar configuration": both
+// constructors - with and without ZMQ authentication - keep the COMPLETE list of excluded subnets (a private copy, entry
+// by entry), and build the per-transport override lists together with cumulative weights of the same length (the
+// precondition of processBdReq).
+//@ import metrics "github.com/refraction-networking/conjure/pkg/metrics"
+//@ func newRegProcessor(zmqBindAddr string, zmqPort uint16, privkey []byte, authVerbose bool, stationPublicKeys []string, enforceSubnetOverrides bool, overrideSubnets []Subnet, exclusionsFromOverride []Subnet, prcntMinRegsToOverride float64, prcntPrefixRegsToOverride float64) (*RegProcessor, error)
+//@   requires len(privkey) >= 32
+//@   ensures @C12: result1 == nil ==> result0 != nil && len(result0.exclusionsFromOverride) == len(exclusionsFromOverride) && (forall i int :: 0 <= i && i < len(exclusionsFromOverride) ==> result0.exclusionsFromOverride[i].CIDR.IPNet == exclusionsFromOverride[i].CIDR.IPNet)
+//@   ensures @C12: result1 == nil ==> len(result0.minOverrideSubnets) == len(result0.minOverrideSubnetsCumulativeWeights) && len(result0.prefixOverrideSubnets) == len(result0.prefixOverrideSubnetsCumulativeWeights) && result0.enforceSubnetOverrides == enforceSubnetOverrides
+//@   checks structure
+//@ func NewRegProcessorNoAuth(zmqBindAddr string, zmqPort uint16, metrics *metrics.Metrics, enforceSubnetOverrides bool, overrideSubnets []Subnet, exclusionsFromOverride []Subnet, prcntMinRegsToOverride float64, prcntPrefixRegsToOverride float64) (*RegProcessor, error)
+//@   ensures @C12: result1 == nil ==> result0 != nil && len(result0.exclusionsFromOverride) == len(exclusionsFromOverride) && (forall i int :: 0 <= i && i < len(exclusionsFromOverride) ==> result0.exclusionsFromOverride[i].CIDR.IPNet == exclusionsFromOverride[i].CIDR.IPNet)
+//@   ensures @C12: result1 == nil ==> len(result0.minOverrideSubnets) == len(result0.minOverrideSubnetsCumulativeWeights) && len(result0.prefixOverrideSubnets) == len(result0.prefixOverrideSubnetsCumulativeWeights) && result0.enforceSubnetOverrides == enforceSubnetOverrides
+//@   checks structure
